@@ -141,7 +141,14 @@ def exec_case(case):
     old = M.config.sort_neighborhoods
     M.config.sort_neighborhoods = bool(g["sorted"])
     try:
-        m = meshes.build_surface(nv, faces)
+        declared = None
+        if g.get("declare", 0):
+            # some sides of the faces are declared as edges beforehand, in another order and direction than the faces list them
+            sides = sorted({(min(f[i], f[(i + 1) % len(f)]), max(f[i], f[(i + 1) % len(f)])) for f in faces for i in range(len(f))})
+            dr = random.Random(len(sides) * 131 + nv)
+            dr.shuffle(sides)
+            declared = [(b, a) if dr.random() < 0.5 else (a, b) for a, b in sides[:max(1, len(sides) // 2)]]
+        m = meshes.build_surface(nv, faces, edges=declared)
         given = dict(g)
         given["E"] = [[int(a), int(b)] for a, b in m.edges]
         events = []
@@ -188,7 +195,7 @@ def run(ctx):
         enum = rng.sample(enum, 1500)
     for i, x in enumerate(enum):
         nv, F = meshes.permute_surface(rng, x["nv"], [list(f) for f in x["F"]])
-        cases.append({"id": "E-%d" % i, "given": {"nv": nv, "F": F, "sorted": 0 if i % 4 == 3 else 1, "family": "E"},
+        cases.append({"id": "E-%d" % i, "given": {"nv": nv, "F": F, "sorted": 0 if i % 4 == 3 else 1, "family": "E", "declare": 1 if i % 3 == 1 else 0},
                       "events": _perm_history(rng, with_clears=(i % 2 == 0))})
     # cover: every transition of the cache graph on rotating small meshes (first query on a FRESH mesh)
     pool = [x for x in enum if len(x["F"]) >= 3][:50] + [{"nv": nv, "F": F} for _, nv, F in lib if len(F) <= 14]
